@@ -74,7 +74,10 @@ def run(ctx):
             okb = oks[0][0]
             lits = F.literals_at(okb, oks[0][1])
             start = b.local_by_name('starting_sequence_number')
-            ge = [l for l, e in lits if l[0] == 'cmp' and l[1] in ('ge', 'gt') and 'starting_sequence_number' in fmt_sym(b, l[3]) and 'sequence_number' in fmt_sym(b, l[2])]
+            ge = [l for l, e in lits if l[0] == 'cmp' and ((l[1] in ('ge', 'gt') and 'starting_sequence_number' in fmt_sym(b, l[3]) and 'sequence_number' in fmt_sym(b, l[2])
+                                                          and 'starting_sequence_number' not in fmt_sym(b, l[2])) or
+                                                         (l[1] in ('le', 'lt') and 'starting_sequence_number' in fmt_sym(b, l[2]) and 'sequence_number' in fmt_sym(b, l[3])
+                                                          and 'starting_sequence_number' not in fmt_sym(b, l[3])))]
             if ge:
                 r.ok(rule, 'validate_chunks:not-below-start', 'Ok only when `%s`' % fmt_lit(b, ge[0])[:140], loc=b.loc)
             else:
